@@ -87,8 +87,6 @@ TRUSTED_BASE = ['modelled (not verified) code: pybtex/bibtex/utils.py lines 96-6
                 'regular expressions BIBTEX_SPACE_RE, BRACE_RE, purify_special_char_re and the separators are hand-written matchers, compared with the live re objects through the functions that use them on the exhaustive stream']
 ASSUMPTIONS = ['letter/digit classes and case mapping are modelled on ASCII; non-ASCII letters are outside the claimed domain (DESIGN.md 2.2)']
 PARTIAL = [
-    'prefix_shape (k = exact depth) is proved for every string that does not end inside a never-closed special character, prefix_closes for balanced strings; otherwise the code may close one brace only (finding C12-P1, prefix_closes_refuted); for all strings: prefix_is_prefix with k <= depth',
-    'split_never_in_braces is proved for balanced strings and for all strings whose groups are all closed; refuted otherwise (finding C12-S1, split_never_in_braces_refuted); split_reassemble holds for all strings',
     'change_case_length / change_case_idem are proved for every string that does not end inside a never-closed special character (for those the scanner emits a closing brace that is not in the input: change_case_unbalanced_example, change_case_upto_case_all)',
     'bibtex_abbreviate, _find_closing_brace and the BST builtins are tied by the correspondence only (the property text states no law about them); bibtex_width / bibtex_first_letter: additivity / shape theorems only',
     'the separator regexes are hand-written matchers; agreement with the live re objects is tested (pattern sweep + through split_tex_string), not proved',
@@ -442,7 +440,7 @@ def mutate(s, rng):
 PINNED = ['', 'abc', 'a{b}c', '{\\', '{\\}', '{\\a', '{a', '}', '}{', 'ab{\\cd', "de la Vall{\\'e}e Poussin", '\\ ', 'a\\ b', 'a\\~b', 'a~b',
           'What a Strange{ }and Bizzare Name! and Peterson', 'Jean--Pierre', '{\\TeX\\ and databases\\Dash\\TeX DBI}', 'And Now: BOOO!!!',
           '{\\noopsort{1973a}}{\\switchargs{--90}{1968}}', 'a{b{c', 'a}b}c', '{{\\a}}', 'x: y: {\\Z z} {Z}',
-          '{\\{', 'a{\\b{c', '{a{b}c d', '{a{b}c, d and e', '{a{b}c-d', 'a{b}c d}e f', 'The {\\TeX book \\noop}', 'And {\\Now: {BOOO}!!!}',
+          '{\\{', 'a{\\b{c', '{a{b}c d', '{{-', '{{~', '{{ ', '{{,', '{\\x{{y', '{a{b}c, d and e', '{a{b}c-d', 'a{b}c d}e f', 'The {\\TeX book \\noop}', 'And {\\Now: {BOOO}!!!}',
           'a:  B c:\tD', 'a:B C', '{\\a B}:{\\c D} E', 'abcdef', 'ab{cd}', 'ab{\\cd}', 'level 0 {1 {\\2}}', '{\\a}{\\b}c', '{}', '{}{\\a}', 'a{\\}b',
           'x{y} and {z and w} AND v', ' and ', 'a and ', ' and and and ', 'a,,b,{c,d},', '-a--b-{-c-}-', '~a~~b\\ c\\~d ~']
 
@@ -482,53 +480,8 @@ def gen(tier, rng):
             for fn, a in cases_for(t, full=False):
                 yield ('malformed', fn, a)
 
-# ----------------------------------------------------------------------------------------
-# known findings (listed in known_findings.d/C12.json)
-def _sig_p1(kind, fn, a, detail):
-    # bibtex_prefix of a string that ends inside an unclosed special character whose inner braces are still
-    # open, with n reaching the end of the string: the result is the whole string plus ONE closing brace
-    if fn == 12 and a[0] == 1:
-        fn, a = 3, [a[1], a[2]]
-    if kind != 'oracle' or fn != 3 or not str(detail).startswith('prefix does not close the braces it opened'):
-        return False
-    s = S(a[0])
-    it = items(s)
-    if not (it and it[-1][0] == 's' and not it[-1][3]):
-        return False
-    inner = s[it[-1][1] + 1:]
-    if not (depths(inner)[-1] > 0 and a[1] >= spec_len(s)):
-        return False
-    return impl_prefix(a) == [0, norm(s + '}')]
-
-def _sig_s1(kind, fn, a, detail):
-    # split_tex_string on a string with a never-closed top-level brace group that contains another brace:
-    # the text after the last brace is treated as top level.  The signature matches only if the pieces DO
-    # re-assemble under exactly that (defective) notion of depth, so any other splitting error still alarms.
-    if kind != 'oracle' or fn != 9 or 're-assemble' not in str(detail) or a[2]:
-        return False
-    s = S(a[0])
-    it = items(s)
-    if not (it and it[-1][0] in ('g', 's') and not it[-1][3]):
-        return False
-    i = it[-1][1]
-    last = max(s.rfind('{'), s.rfind('}'))
-    if last <= i:
-        return False
-    dep = depths(s)
-    dep = dep[:last + 1] + [0] * (len(s) - last)
-    out = impl_split(a)
-    if out[0] != 0:
-        return False
-    return reassemble(s, [S(x) for x in out[1]], a[1], bool(a[3]) or a[1] == 0, dep)
-
-KNOWN_SIGNATURES = {'C12-P1': _sig_p1, 'C12-S1': _sig_s1}
-
-def replay_known(k):
-    p = k.get('pinned')
-    if not p:
-        return None
-    fn, a = p['fn'], norm(p['arg'])
-    return oracle(fn, a, FUNCS[fn][1](a))
+# (the two findings C12-P1 / C12-S1 are fixed in the code -- known_findings.d/C12.json, status "fixed";
+#  their inputs stay in PINNED as regression cases)
 
 # ----------------------------------------------------------------------------------------
 # thorough tier: extraction cross-checked against the kernel's evaluator.  A sample of the cases is
